@@ -147,7 +147,7 @@ def arm_accounting(F, rep):
 
     def label_of(a):
         item = tx = None
-        for cond, val, ety, vn in a.guards:
+        for cond, val, ety, vn, *_x in a.guards:
             if ety and ety.endswith("::SchwabTransactionsItem") and item is None and isinstance(vn, str):
                 item = vn
             if ety and ety.endswith("::SchwabTransaction") and tx is None and vn and val != "otherwise":
@@ -772,6 +772,22 @@ def run(ctx, rep):
 
 def controls(pctx, rep):
     F = pctx.F
+    # effect synthesis on a tiny row loop with an outcome enum and a recorder method (posctl::effsyn_rows)
+    try:
+        from effsyn import EffSyn
+        eb = F.one("effsyn_rows")
+        (h, blks), = eb.loops()
+        es = EffSyn(F, tracked=lambda ty: "u32" in ty, place_type=_place_type, helper_ok=lambda hb: hb.crate == "posctl")
+        alts = [a for a in es.run(eb, start=h, stops=(h,)) if a.exit == "stop"]
+        per = {}
+        for a in alts:
+            vn = [g[3] for g in a.guards if g[2] and g[2].endswith("RowKind") and isinstance(g[3], str)]
+            if vn:
+                per.setdefault(vn[0], set()).add((len([p for p in a.pushes if p[0] == "push"]), len(a.counts)))
+        rep.control("R2:effsyn", per.get("Keep") == {(1, 0)} and per.get("Twice") == {(2, 0)} and per.get("Drop") == {(0, 1)},
+                    f"posctl::effsyn_rows pushes/counts per row kind = { {k: sorted(v) for k, v in per.items()} } (expected Keep 1/0, Twice 2/0, Drop 0/1)")
+    except Exception as e:   # the engine itself broke
+        rep.control("R2:effsyn", False, f"effect synthesis failed on posctl::effsyn_rows: {e}")
     b = F.one("comment_unsanitised")
     tb = Terms(F, b, inline_depth=0)
     fired = False
